@@ -317,6 +317,76 @@ let check_linear (e : 'v elt) (l : 'v list) (t : 'v) (domain : bool) (get : stri
        if domain && not (e.chk_threshold lm t sorted) then propfail "lin.threshold is not exactly the positions >= t"
        else if List.sort compare idx <> List.sort compare (Lazy.force model_th) then diff "lin.threshold differs from the model (as a set)")
 
+
+(* ---- reused buffers: the history `h=` of the one StripedScores, then resize(R, mi) and the first
+   `w` rows of `m`, evaluated on the extracted buffer model (MaxiBuffer.v: backing vector and row
+   count as separate fields).  The matrix the answers are judged against is the LOGICAL content of
+   the model's buffer (C07_history_independent); the harness' `h.R`, `h.it`, `h.lh`, `h.ih` tie the
+   model's row count, the number of rows matrix().iter() yields and the two contents. ---- *)
+let rec firstn_l n l = if n <= 0 then [] else match l with [] -> [] | x :: r -> x :: firstn_l (n - 1) r
+
+(* hash of a list of rows of cells (as RowHash of harness/src/bin/maxi.rs) *)
+let hash_mod = 2147483647
+let hash_step h x = (h * 16777619 + x + 1) mod hash_mod
+let hash_rows (m : int list list) : int =
+  List.fold_left (fun h row -> List.fold_left hash_step (hash_step h 4294967311) row) (2166136261 mod hash_mod) m
+
+let history_matrix (type v) (e : v elt) (to_int : v -> int) (dflt : v)
+    (run : nat -> v bop list -> v buffer res)
+    (get_in : string -> string) (get : string -> string option) (cols : int) (m_in : v list list) (mi : int)
+    : v list list =
+  let h = try Some (get_in "h") with Not_found -> None in
+  let rows_in = List.length m_in in
+  if h = None && (rows_in > 16 || get "h.R" = None) then m_in else begin
+    let w = try Some (int_of_string (get_in "w")) with Not_found -> None in
+    let scored = ref false in
+    let fill_rows rows v = let row = List.init cols (fun _ -> v) in List.init rows (fun _ -> row) in
+    let ops_of tok =
+      let body = String.sub tok 1 (String.length tok - 1) in
+      match tok.[0] with
+      | 'r' | 'd' ->
+          (match String.split_on_char ':' body with
+           | [r; v] ->
+               let rows = int_of_string r in
+               (if tok.[0] = 'r' then BResize (nat_of_int rows, n_of_int (rows * cols)) else BDResize (nat_of_int rows))
+               :: (if rows = 0 then [] else [BWrite (fill_rows rows (e.of_int (int_of_string v)))])
+           | _ -> failwith ("bad history step " ^ tok))
+      | 'S' ->
+          (* score_rows_into(a..b): resize(b - a, ..) and every cell rewritten; the content is not
+             modelled here (it never reaches the final matrix: such cases rewrite every row) *)
+          scored := true;
+          let rng = String.sub body 1 (String.length body - 1) in
+          (match String.split_on_char '-' rng with
+           | [a; b] ->
+               let rows = max 0 (int_of_string b - int_of_string a) in
+               BResize (nat_of_int rows, n_of_int 370) :: (if rows = 0 then [] else [BWrite (fill_rows rows dflt)])
+           | _ -> failwith ("bad history step " ^ tok))
+      | _ -> failwith ("bad history step " ^ tok) in
+    let hops = match h with None -> [] | Some hs -> List.concat_map ops_of (List.filter (fun x -> x <> "") (split ';' hs)) in
+    if !scored && w <> None then diff "history case with a score step and a partial final write (not modelled)";
+    let written = match w with None -> m_in | Some k -> firstn_l k m_in in
+    let ops = hops @ [BResize (nat_of_int rows_in, n_of_int mi)] @ (if written = [] then [] else [BWrite written]) in
+    match run (nat_of_int cols) ops with
+    | Ok b ->
+        let m = b_logical b in
+        let hz rows = hash_rows (List.map (List.map to_int) rows) in
+        (match get "h.R" with
+         | Some x when int_of_string x = int_of_nat (brows b) -> ()
+         | _ -> diff "h.R: matrix().rows() differs from the buffer model");
+        (match get "h.it" with
+         | Some x when int_of_string x = List.length (b_iter b) -> ()
+         | Some x -> diff "h.it=%s: matrix().iter() yields another number of rows than the buffer model (%d)" x (List.length (b_iter b))
+         | None -> diff "h.it missing");
+        (match get "h.lh" with
+         | Some x when int_of_string x = hz m -> ()
+         | _ -> diff "h.lh: the cells of rows 0..rows() differ from the buffer model");
+        (match get "h.ih" with
+         | Some x when int_of_string x = hz (b_iter b) -> ()
+         | _ -> diff "h.ih: the rows yielded by matrix().iter() differ from the buffer model");
+        m
+    | _ -> diff "buffer model: the history panics"; m_in
+  end
+
 let arm_of = function "G" -> AGeneric | "S" -> ASse2 | "A" -> AAvx2 | _ -> failwith "arm"
 
 let conv_coord_opt = function None -> None | Some rc -> Some (coord_of_nat rc)
@@ -359,6 +429,7 @@ let run_f32 get_in get cols =
   let mi = int_of_string (get_in "mi") in
   let t = f32_of_string (get_in "t") in
   let m = List.map (List.map e.of_int) (parse_matrix_fields get_in cols) in
+  let m = history_matrix e f32_bits (f32_of_int 0) f32_buf_run get_in get cols m mi in
   let rows = List.length m in
   let domain = List.for_all (List.for_all e.in_domain) m && e.in_domain t in
   let min_ = n_of_int mi in
@@ -435,6 +506,7 @@ let run_u8 get_in get cols =
   let mi = int_of_string (get_in "mi") in
   let t = z_of_int (int_of_string (get_in "t")) in
   let m = List.map (List.map e.of_int) (parse_matrix_fields get_in cols) in
+  let m = history_matrix e int_of_z (z_of_u8 0) u8_buf_run get_in get cols m mi in
   let rows = List.length m in
   let domain = true in
   let cn = nat_of_int cols in
@@ -556,6 +628,64 @@ let run_e2e get_in get =
         end)
     ["G"; "S"; "A"]
 
+
+(* ---------------- the Scanner pattern: row ranges scored in turn into one buffer ----------------
+   The cells of the buffer after the last range are taken from the observation (`X.c`, rows
+   0..rows() read through Index; that they are the defined scores is property C01); maximum,
+   arg-maximum, scores[argmax] and threshold of StripedScores under each forced arm are judged
+   against these cells by check_C07 and compared with the extracted dispatcher models. *)
+let run_e2e_ranges get_in get =
+  let discrete = (try get_in "dt" = "u8" with Not_found -> false) in
+  let pssm_rows = List.length (parse_int_matrix (get_in "pssm")) in
+  let seqs = let s = get_in "seq" in if s = "-" then "" else s in
+  let l = String.length seqs in
+  let ranges = List.map (fun r -> match String.split_on_char '-' r with
+                          | [a; b] -> (int_of_string a, int_of_string b)
+                          | _ -> failwith "bad range") (List.filter (fun x -> x <> "") (split ';' (get_in "rr"))) in
+  let (la, lb) = List.nth ranges (List.length ranges - 1) in
+  let exp_rows = if l < pssm_rows || lb <= la then 0 else lb - la in
+  let exp_mi = if exp_rows = 0 then 0 else l + 1 - pssm_rows in
+  let cols = 32 in
+  List.iter (fun an ->
+    match get (an ^ ".R") with
+    | None -> diff "%s.R missing" an
+    | Some "P" -> propfail "%s: scoring panicked" an
+    | Some r ->
+        let rows = int_of_string r in
+        if rows <> exp_rows then diff "%s.R=%d expected %d (length of the last range)" an rows exp_rows
+        else begin
+          let mi = match get (an ^ ".mi") with Some x -> int_of_string x | None -> -1 in
+          if mi <> exp_mi then diff "%s.max_index differs from L-M+1" an;
+          let cells = parse_int_matrix (match get (an ^ ".c") with Some x -> x | None -> "-") in
+          if List.length cells <> rows then diff "%s.c has a wrong number of rows" an
+          else begin
+            let a = arm_of an in
+            if discrete then begin
+              let e = u8_elt in
+              let m = List.map (List.map e.of_int) cells in
+              let t = z_of_int (int_of_string (get_in "t")) in
+              let am = lazy (u8_dispatch_argmax a m) in
+              check_striped e m t true get an rows cols
+                (lazy (of_res (fun x -> x) (u8_dispatch_max a m)))
+                (lazy (of_res conv_n_opt (u8_ss_argmax (Lazy.force am) m)))
+                (lazy (List.map int_of_n (u8_ss_threshold m t)))
+                (fun off -> of_res (fun x -> x) (u8_index_usize m (nat_of_int off)))
+            end else begin
+              let e = f32_elt in
+              let m = List.map (List.map e.of_int) cells in
+              let t = f32_of_string (get_in "t") in
+              let domain = List.for_all (List.for_all e.in_domain) m && e.in_domain t in
+              let am = lazy (f32_dispatch_argmax a (n_of_int (max mi 0)) m) in
+              check_striped e m t domain get an rows cols
+                (lazy (of_res (fun x -> x) (f32_dispatch_max a m)))
+                (lazy (of_res conv_n_opt (f32_ss_argmax (Lazy.force am) m)))
+                (lazy (List.map int_of_n (f32_ss_threshold m t)))
+                (fun off -> of_res (fun x -> x) (f32_index_usize m (nat_of_int off)))
+            end
+          end
+        end)
+    ["G"; "S"; "A"]
+
 (* The extracted list functions are not tail recursive and a 3000-row matrix has ~10^5 cells:
    re-execute once under a larger stack limit (soft limit raised to 1 GB when the hard limit
    allows it; otherwise the default stays and very large cases may still overflow). *)
@@ -603,7 +733,7 @@ let () =
            | "b16" -> run_u8 get_in get 16
            | "b48" -> run_u8 get_in get 48
            | "b64" -> run_u8 get_in get 64
-           | "e2e" -> run_e2e get_in get
+           | "e2e" -> if (try ignore (get_in "rr"); true with Not_found -> false) then run_e2e_ranges get_in get else run_e2e get_in get
            | k -> diff "unknown kind %s" k
          with ex -> diff "driver exception %s" (Printexc.to_string ex));
         print_endline (id ^ " " ^ !verdict)
